@@ -1415,6 +1415,7 @@ func (c *FnCtx) iterateCallback(st *State, call *ast.CallExpr, con *Contract, bi
 	st.vars[idxObj] = &Val{T: "0", S: SInt, Typ: types.Typ[types.Int]}
 	c.rangeIdx[call] = idxObj
 	c.rangeLen[call] = n
+	c.mapSeqOf[call] = S // the sequence this iterator loop runs over (seq<N> in contracts)
 	cntObj := types.NewVar(call.Pos(), c.pkg.Types, fmt.Sprintf("iter_ncalls_%d", c.loopOrd[call]), types.Typ[types.Int])
 	lastObj := types.NewVar(call.Pos(), c.pkg.Types, fmt.Sprintf("iter_last_%d", c.loopOrd[call]), types.Typ[types.Bool])
 	st.vars[cntObj] = &Val{T: "0", S: SInt, Typ: types.Typ[types.Int]}
